@@ -1,16 +1,195 @@
-import ChythonModel.Model.Pack
+import ChythonModel.Proofs.C10WF
+import ChythonModel.Proofs.C10Half
 /-!
-# C10 — binary pack format: property theorems (work in progress, see design/C10.md)
+# C10 — binary pack format: lossless round trip, stable published layout
+
+All statements are about the functions of `Model/Pack.lean` / `Model/Half.lean` that `Drivers/C10.lean` runs
+(`encode`, `decode`, `packLen`, `rxnEncode`, `rxnDecode`, `rxnPackLen`, `toF16`, `ofF16`, `pairEnc/pairDec`,
+`orderEnc/orderDec`). `WF m` is exactly the format limits: atom numbers distinct and ≤ 4095, ≤ 15 neighbours,
+Z 1…118, isotope offset 1…31, charge −4…4, H 0…6 or unknown, bond orders 1…8, symmetric adjacency without loops,
+every bond listed from both ends, ≤ 4095 cis/trans records whose terminal atoms are known and ≤ 4095.
+`wfb` is its executable form; the driver evaluates it on every generated molecule.
 -/
 namespace ChythonModel.Props.C10
-open ChythonModel.Gen ChythonModel.Model.Pack
+open ChythonModel.Gen ChythonModel.Model.Pack ChythonModel.Proofs.C10
 
-/-- G: the two `common_isotopes` tables agree, equal `mdl_isotope − 16` for every element, `elements[Z]` is the
-    class with atomic number Z, and every tabulated isotope fits the 5-bit field (offset 1…31). -/
+/-! ## G — regenerated tables -/
+
+/-- the two `common_isotopes` tables agree, equal `mdl_isotope − 16` for every element, `elements[Z]` is the class
+    with atomic number Z. -/
 theorem tables_agree :
     packCommon = unpackCommon ∧ packCommon.length = 119 ∧ unpackElems.length = 119 ∧
     packElemRows.length = 118 ∧
     (∀ r ∈ packElemRows, 1 ≤ r.1 ∧ r.1 ≤ 118 ∧ commonAt packCommon r.1 = some ((r.2.2.1 : Int) - 16) ∧
         unpackElems[r.1]? = some r.2.1) := by decide +kernel
+
+/-- every tabulated isotope of every element fits the 5-bit field (offset 1…31; 0 means unspecified) -/
+theorem isotopes_representable :
+    ∀ r ∈ packElemRows, ∀ i ∈ r.2.2.2, ∃ c, commonAt packCommon r.1 = some c ∧ 1 ≤ (i : Int) - c ∧ (i : Int) - c ≤ 31 := by
+  decide +kernel
+
+/-! ## fields -/
+
+/-- the 9-byte atom record decodes to the same atom (number, element, isotope, stereo, coordinates bits, hydrogens,
+    charge, radical) and neighbour count -/
+theorem atom_record_roundtrip (a : PAtom) (h : AtomOK a) :
+    ∃ bs, atomRecord a = some bs ∧ bs.length = 9 ∧ decodeAtom bs = .ok ({ a with nbrs := [] }, a.nbrs.length) :=
+  Proofs.C10.atom_record_roundtrip a h
+
+/-- tetrahedral / allene stereo nibble: `None/True/False` survive for every neighbour count -/
+theorem stereo_nibble_roundtrip :
+    ∀ st ∈ [none, some true, some false], ∀ deg < 16,
+      stereoOfNibble (stereoNibble st deg >>> 4) = st ∧ stereoNibble st deg ∈ [0, 0x20, 0x30, 0x80, 0xc0] :=
+  Proofs.C10.stereo_nibble_roundtrip
+
+/-- hydrogens (incl. unknown) / charge / radical byte -/
+theorem hcr_roundtrip :
+    ∀ h ∈ [none, some 0, some 1, some 2, some 3, some 4, some 5, some 6],
+    ∀ c ∈ [(-4 : Int), -3, -2, -1, 0, 1, 2, 3, 4], ∀ r ∈ [false, true],
+      let b := hcrByte h c r
+      b < 256 ∧ (if b >>> 5 == 7 then none else some (b >>> 5)) = h ∧
+      ((((b >>> 1) &&& 0x0f : Nat) : Int) - 4) = c ∧ ((b &&& 1) != 0) = r :=
+  Proofs.C10.hcr_roundtrip
+
+/-! ## streams, for every length -/
+
+/-- 12-bit connection table: any even-length list of atom numbers ≤ 4095 survives the `b` toggle packing -/
+theorem pair_stream_roundtrip (l : List Nat) (buf : Nat) (hb : ∀ m ∈ l, m < 4096) (he : l.length % 2 = 0) :
+    pairDec (pairEnc true buf l) = l ∧ (pairEnc true buf l).length = 3 * (l.length / 2) :=
+  ⟨pairDec_pairEnc l buf hb he, pairEnc_length l buf he⟩
+
+/-- 3-bit bond-order stream: for EVERY bond count the decoder's first `n` codes are the encoder's input, and the
+    block is `⌈3n/8⌉` bytes -/
+theorem order_stream_roundtrip (codes : List Nat) (b b' : Nat) (h : ∀ c ∈ codes, c < 8) :
+    (orderDec 0 b (orderEnc 0 b' codes)).take codes.length = codes ∧
+    (orderEnc 0 b' codes).length = (3 * codes.length + 7) / 8 :=
+  ⟨Proofs.C10.order_stream_roundtrip codes b b' h, orderEnc_length codes b'⟩
+
+/-! ## molecules -/
+
+/-- **round trip**: a molecule within the format limits packs, and unpacking the bytes (also when other data
+    follows, as inside a reaction pack) gives back the atoms in order with every field and every neighbour
+    dictionary in order with the bond orders; bond stereo comes back as the cis/trans list; the reported size is the
+    pack length. -/
+theorem decode_encode (m : PMol) (h : WF m) (rest : List Nat) :
+    ∃ bytes, encode m = .ok bytes ∧ bytes.length = packSize m.atoms ∧
+      decode (bytes ++ rest) =
+        .ok ⟨m.atoms.map eraseSt, ctListOf m.terminals (firstSeen [] m.atoms), bytes.length⟩ :=
+  decode_encode_aux m h rest
+
+/-- the executable limit test implies the hypothesis -/
+theorem wf_of_wfb (m : PMol) (h : wfb m = true) : WF m := wfb_sound m h
+
+/-- the format check rejects what the format cannot hold (error branches of `pack(check=True)`) -/
+theorem encode_rejects (m : PMol) :
+    (m.atoms = [] → encode m = .error .empty) ∧
+    (m.atoms ≠ [] → (∃ a ∈ m.atoms, a.num > 4095) → encode m = .error .big) ∧
+    (m.atoms ≠ [] → (∀ a ∈ m.atoms, a.num ≤ 4095) → (∃ a ∈ m.atoms, a.nbrs.length > 15) →
+      encode m = .error .neighbors) := by
+  refine ⟨fun h => by simp [encode, checkLimits, h]; rfl, fun hne hb => ?_, fun hne hs hd => ?_⟩
+  · have h1 : m.atoms.isEmpty = false := by cases hm : m.atoms <;> simp_all
+    have h2 : m.atoms.any (fun a => decide (a.num > 4095)) = true := by
+      rw [List.any_eq_true]; obtain ⟨a, ha, hgt⟩ := hb; exact ⟨a, ha, by simpa using hgt⟩
+    simp [encode, checkLimits, h1, h2]; rfl
+  · have h1 : m.atoms.isEmpty = false := by cases hm : m.atoms <;> simp_all
+    have h2 : m.atoms.any (fun a => decide (a.num > 4095)) = false := by
+      rw [List.any_eq_false]; intro a ha; have := hs a ha; simp; omega
+    have h3 : m.atoms.any (fun a => decide (a.nbrs.length > 15)) = true := by
+      rw [List.any_eq_true]; obtain ⟨a, ha, hgt⟩ := hd; exact ⟨a, ha, by simpa using hgt⟩
+    simp [encode, checkLimits, h1, h2, h3]; rfl
+
+/-- `pack_len` reports the number of atoms -/
+theorem packLen_correct (m : PMol) (h : WF m) (rest : List Nat) :
+    ∃ bytes, encode m = .ok bytes ∧ packLen (bytes ++ rest) = .ok m.atoms.length := by
+  obtain ⟨ab, tl, F, hsh, _⟩ := encode_shape m h
+  refine ⟨_, hsh, ?_⟩
+  have hn := h.count
+  have hc := h.ctLimit
+  obtain ⟨a1, a2, _⟩ := pair12_arith m.atoms.length (ctCount m.atoms) (by omega) (by omega)
+  have hv : ((2 : Nat) == 0) = true ∨ ((2 : Nat) == 2) = true := Or.inr rfl
+  simp only [List.cons_append, List.nil_append, packLen, if_pos hv]
+  have := pySlice_nat (2 :: u8 (m.atoms.length >>> 4) :: u8 (m.atoms.length <<< 4 ||| ctCount m.atoms >>> 8) ::
+    u8 (ctCount m.atoms) :: (ab ++ tl ++ rest)) 1 3
+  have this' : pySlice (2 :: u8 (m.atoms.length >>> 4) :: u8 (m.atoms.length <<< 4 ||| ctCount m.atoms >>> 8) ::
+      u8 (ctCount m.atoms) :: (ab ++ tl ++ rest)) (some 1) (some 3) = _ := this
+  rw [this']
+  simp only [List.take, List.drop, fromBytesBE, List.foldl, a1, a2]
+  rw [Nat.shiftRight_eq_div_pow]
+  congr 1; omega
+
+/-! ## half floats -/
+
+/-- every finite half-precision pattern except −0.0 is a fixed point of decode → encode (63 487 patterns) -/
+theorem f16_bits_roundtrip :
+    (∀ e < 31, ∀ fh < 32, ∀ fl < 32,
+      toF16 (ofF16 (e * 1024 + fh * 32 + fl)) = e * 1024 + fh * 32 + fl) ∧
+    (∀ e < 31, ∀ fh < 32, ∀ fl < 32, e * 1024 + fh * 32 + fl ≠ 0 →
+      toF16 (ofF16 (32768 + e * 1024 + fh * 32 + fl)) = 32768 + e * 1024 + fh * 32 + fl) :=
+  ⟨f16_pos, f16_neg⟩
+
+/-- ±0 and everything outside the half range (|x| ≥ 65536, |x| < 2⁻²⁵) is stored as 0 -/
+theorem f16_out_of_range (neg : Bool) (m : Nat) (e : Int)
+    (h : m = 0 ∨ ((Nat.log2 m + 1 : Nat) : Int) + e - 1 ≥ 16 ∨ ((Nat.log2 m + 1 : Nat) : Int) + e - 1 < -25) :
+    toF16 ⟨neg, m, e⟩ = 0 := by
+  unfold toF16
+  by_cases hm : m = 0
+  · simp [hm]
+  · rcases h with h | h | h
+    · exact absurd h hm
+    · simp only [hm, ↓reduceIte]; rw [if_pos (Or.inl h)]
+    · simp only [hm, ↓reduceIte]; rw [if_pos (Or.inr h)]
+
+/-! ## reactions -/
+
+/-- **reaction round trip** for all role sizes 0…255 (an empty side included): every molecule comes back, decoded,
+    in its own role. -/
+theorem rxn_roundtrip (r : PRxn) (h : RxnWF r) :
+    ∃ bytes, rxnEncode r = .ok bytes ∧
+      rxnDecode bytes = .ok ⟨r.reactants.map decodedOf, r.reagents.map decodedOf, r.products.map decodedOf⟩ :=
+  rxn_roundtrip_aux r h
+
+/-- **reaction `pack_len`**: the walk over the concatenated packs (4 header bytes, 9 bytes per atom,
+    3 bytes per bond, `⌈3·bonds/8⌉` order bytes, 4 bytes per cis/trans record) reports the true atom counts per role. -/
+theorem rxn_packLen_correct (r : PRxn) (h : RxnWF r) :
+    ∃ bytes, rxnEncode r = .ok bytes ∧
+      rxnPackLen bytes = .ok ⟨r.reactants.map (·.atoms.length), r.reagents.map (·.atoms.length),
+        r.products.map (·.atoms.length)⟩ :=
+  rxn_packLen_aux r h
+
+/-- more than 255 molecules in a role cannot be framed (error branch of `bytearray((1, r, g, p))`) -/
+theorem rxn_rejects (r : PRxn) (h : r.reactants.length > 255 ∨ r.reagents.length > 255 ∨ r.products.length > 255) :
+    rxnEncode r = .error .count := by
+  simp [rxnEncode, h]
+
+/-! ## non-vacuity: the hypotheses are satisfiable by non-trivial instances -/
+
+/-- `[13C]H3-C(=O)…`-like: 4 atoms, numbers up to 4095, an isotope, a charge, a radical, atom stereo, a cis/trans
+    bond with terminals, a ring closure (back-connections) -/
+def exMol : PMol :=
+  { atoms := [
+      { num := 4095, z := 6, iso := some 13, stereo := some true, x := 0x3c00, y := 0xbc00, h := some 3, charge := 0,
+        radical := false, nbrs := [⟨7, 2, some true⟩, ⟨300, 1, none⟩] },
+      { num := 7, z := 7, iso := none, stereo := none, x := 0, y := 1, h := none, charge := 1, radical := false,
+        nbrs := [⟨4095, 2, some true⟩, ⟨300, 8, none⟩] },
+      { num := 300, z := 8, iso := none, stereo := some false, x := 0, y := 0, h := some 0, charge := -1, radical := true,
+        nbrs := [⟨7, 8, none⟩, ⟨4095, 1, none⟩, ⟨1, 3, none⟩] },
+      { num := 1, z := 118, iso := some 294, stereo := none, x := 65535, y := 0, h := some 6, charge := 4, radical := false,
+        nbrs := [⟨300, 3, none⟩] }],
+    terminals := [(4095, 300, 1), (7, 300, 1)] }
+
+example : WF exMol := wf_of_wfb exMol (by decide +kernel)
+
+def exSmall : PMol :=
+  { atoms := [{ num := 1, z := 8, iso := none, stereo := none, x := 0, y := 0, h := some 2, charge := 0, radical := false,
+                nbrs := [] }] }
+
+/-- a reaction with an empty products side and an empty reactants side -/
+example : RxnWF ⟨[exMol, exSmall], [exSmall], []⟩ ∧ RxnWF ⟨[], [exMol], [exSmall]⟩ := by
+  have h1 : WF exMol := wf_of_wfb exMol (by decide +kernel)
+  have h2 : WF exSmall := wf_of_wfb exSmall (by decide +kernel)
+  constructor <;> refine ⟨?_, by simp [PRxn.molecules], by simp, by simp, by simp⟩ <;>
+    · intro m hm; simp [PRxn.molecules] at hm; rcases hm with rfl | rfl | rfl <;> assumption
+
+example : AtomOK exMol.atoms.head! := (wf_of_wfb exMol (by decide +kernel)).atomsOK _ (by decide)
 
 end ChythonModel.Props.C10
